@@ -26,6 +26,13 @@ CHECKS = {
         note="Trusts the reference checker vf/props/c15.py:conforms (written from the property statement) and the descriptor->annotation builder.",
         ref="DESIGN.md section 4, C15",
     ),
+    "C12": dict(
+        level="exploration",
+        technique="model-based testing: exhaustive op-sequence enumeration to a length bound + Hypothesis op sequences against an explicit protocol state machine",
+        text="All 64 spec_property configurations (16 option combinations x plain / spec unmanaged / spec managed / managed+preparer hosts) and all 32 classproperty configurations over a three-class chain are driven through every operation sequence up to the length bound (quick 5/4, thorough 6/5) and Hypothesis sequences of up to 40 ops, in lock-step with an explicit override/cache/getter state machine. Exhaustive to the bound, sampled beyond.",
+        note="Trusts the protocol model in vf/props/c12.py; custom setter/deleter are modelled as writes to the underlying state.",
+        ref="DESIGN.md section 4, C12",
+    ),
 }
 
 NOT_YET = "check not built yet in this revision (see DESIGN.md section 9 for the order); nothing is claimed"
